@@ -38,7 +38,10 @@ class Facts:
 
     # ---- lookups ---------------------------------------------------------------------
     def body(self, name):
-        return self.bodies.get(name)
+        b = self.bodies.get(name)
+        if b is not None:
+            self.__dict__.setdefault("touched", set()).add(name)
+        return b
 
     def find_bodies(self, pred):
         return [b for b in self.bodies.values() if pred(b)]
